@@ -687,6 +687,9 @@ class Executor:
     def s_AugAssign(self, s, env):
         cur = self.eval(_load(s.target), env)
         rhs = self.eval(s.value, env)
+        if isinstance(cur, PList) and isinstance(s.op, ast.Add) and isinstance(rhs, Custom) and hasattr(rhs, "prefixed_by"):
+            self.assign(s.target, rhs.prefixed_by(self, cur), env)  # concrete prefix + ghost-view list: the contract's view absorbs the prefix
+            return
         if isinstance(cur, PList) and isinstance(s.op, ast.Add):
             # list/bytearray += iterable : in-place extend
             cur.items.extend(self.iter_concrete(rhs))
@@ -1072,25 +1075,36 @@ class Executor:
                 self.exec_block(s.finalbody, env)
 
     def resolve_exc(self, name):
-        """The exception class a name denotes in the module being executed: a module that imports the library's own
-        NotImplementedError (numbers_parser.exceptions) shadows the builtin of that name."""
+        """The exception class a name denotes in the module being executed.  A module-level import or class definition that binds the name
+        of a builtin exception shadows the builtin: `from numbers_parser.exceptions import NotImplementedError` makes `except
+        NotImplementedError` catch the library's class, not the one zipfile raises."""
         name = self.ctx.exc_alias.get(name, name)
-        if name == "NotImplementedError":
+        BUILTIN = {"NotImplementedError", "ValueError", "KeyError", "IndexError", "TypeError", "LookupError", "OSError", "RuntimeError",
+                   "AttributeError", "StopIteration", "EOFError", "UnicodeError", "UnicodeDecodeError", "Exception", "BaseException"}
+        if name in BUILTIN:
             from . import extract as _ex
             mod = getattr(self.finfo, "mod", None)
             cache = self.ctx.__dict__.setdefault("_exc_imports", {})
             if mod not in cache:
-                names = set()
+                names = {}
                 try:
                     _, tree = _ex.load_module(mod)
-                    for n in ast.walk(tree):
-                        if isinstance(n, ast.ImportFrom) and n.module and n.module.endswith("exceptions"):
-                            names.update(a.asname or a.name for a in n.names)
+                    for n in tree.body:
+                        if isinstance(n, ast.ImportFrom) and n.module:
+                            for a in n.names:
+                                names[a.asname or a.name] = n.module
+                        elif isinstance(n, ast.ClassDef):
+                            names[n.name] = mod
                 except Exception:  # noqa: BLE001
                     pass
                 cache[mod] = names
-            if name in cache[mod]:
-                return "NotImplementedError_"
+            src = cache[mod].get(name)
+            if src is not None:
+                if name == "NotImplementedError" and src.endswith("exceptions"):
+                    return "NotImplementedError_"
+                shadow = f"{name}@{src}"
+                EXC_BASES.setdefault(shadow, "Exception")
+                return shadow
         return name
 
     def handler_matches(self, h, exc, env):
@@ -1139,7 +1153,7 @@ class Executor:
 
     # ================================================================ expressions
     def eval(self, e, env):
-        if self.contract.opaque and not self.in_spec and isinstance(e, (ast.Attribute, ast.Subscript, ast.Call, ast.ListComp, ast.DictComp, ast.GeneratorExp, ast.BinOp)):
+        if self.contract.opaque and not self.in_spec and isinstance(e, (ast.Attribute, ast.Subscript, ast.Call, ast.ListComp, ast.DictComp, ast.GeneratorExp, ast.BinOp, ast.List)):
             k = self.contract.opaque.get(ast.unparse(e))
             if k is not None:
                 if callable(k):
@@ -1487,6 +1501,8 @@ class Executor:
             k = z3.Int(fresh_name("k"))
             xs = lift(x)
             return z3.Exists([k], z3.And(k >= 0, k < container.ln, z3.Select(container.at, k) == xs))
+        elif isinstance(container, _Range) and isinstance(container.step, int) and container.step == 1 and is_intlike(x):
+            return z3.And(container.start_t <= as_int_term(x), as_int_term(x) < container.stop_t)  # x in range(a, b)
         elif isinstance(container, _SDictLike) or (isinstance(container, Custom) and hasattr(container, "contains")):
             return container.contains(self, x)
         elif isinstance(container, PObj):
@@ -1515,6 +1531,11 @@ class Executor:
         if a is None or b is None:
             self.safety(False, "TypeError", "operand-not-None", line)
             raise PathEnd()
+        if isinstance(a, str) and isinstance(op, ast.Mod) and (is_sym(b) or isinstance(b, (PObj, Custom, VExc)) or
+                                                              (isinstance(b, tuple) and any(is_sym(x) or isinstance(x, (PObj, Custom, VExc)) for x in b))):
+            # printf-style message formatting with symbolic operands: the text is not modelled (messages of exceptions, log lines)
+            self.notes.add("printf-style string formatting abstracted to an arbitrary string")
+            return SStr(z3.String(fresh_name("formatted")))
         # concrete fast path
         if not is_sym(a) and not is_sym(b) and not isinstance(a, (PList, PObj, Custom)) and not isinstance(b, (PList, PObj, Custom)):
             try:
@@ -1747,6 +1768,10 @@ class Executor:
             if isinstance(obj, _Sliceable):
                 lo, hi = self.raw_slice(sl, obj.length(self), env)
                 return obj.slice(self, lo, hi, line)
+            if isinstance(obj, Custom) and hasattr(obj, "getslice"):
+                lo = None if sl.lower is None else self.eval(sl.lower, env)
+                hi = None if sl.upper is None else self.eval(sl.upper, env)
+                return obj.getslice(self, lo, hi, line)
             raise Unsupported(f"slice of {type(obj).__name__}")
         idx = self.eval(sl, env)
         if isinstance(obj, (str, SStr)):
@@ -1828,6 +1853,10 @@ class Executor:
                 from . import bytemem
                 lo, hi = self.raw_slice(sl, obj.length(self), env)
                 return bytemem.set_slice(self, obj, lo, hi, v, line)
+            if isinstance(obj, Custom) and hasattr(obj, "setslice"):
+                lo = None if sl.lower is None else self.eval(sl.lower, env)
+                hi = None if sl.upper is None else self.eval(sl.upper, env)
+                return obj.setslice(self, lo, hi, v, line)
             raise Unsupported("slice assignment")
         idx = self.eval(sl, env)
         if isinstance(obj, PList):
@@ -2084,6 +2113,8 @@ class Executor:
             return self.call_func(f.func, [f.obj] + list(args), kwargs, line)
         if isinstance(f, RePattern):
             raise Unsupported("calling a pattern")
+        if isinstance(f, PObj) and (f.cls, "__call__") in getattr(self.ctx, "method_models", {}):
+            return self.ctx.method_models[(f.cls, "__call__")](self, f, list(args), kwargs, line)  # a callable record (contract-provided model)
         raise Unsupported(f"call of {type(f).__name__} at L{line}")
 
     def call_func(self, f, args, kwargs, line=0, self_obj=None):
